@@ -38,7 +38,7 @@ Definition sc (pa pb : Z) (ll mn r rl bv : val) (m o : list Z) : state :=
      inb := m; outb := o |}.
 
 Ltac evcmp := cbn [prog_env eval_args callee_init finish_call copy_in copy_out try_update update lookup combine map app String.append
-                 String.eqb Ascii.eqb Bool.eqb fparams flocals fbody vars inb outb budget_var cell_token List.length Nat.eqb eval set_var cast
+                 String.eqb Ascii.eqb Bool.eqb fparams flocals fbody vars inb outb budget_var fail_var cell_token List.length Nat.eqb eval set_var cast
                  prog_sbdf_str_len prog_sbdf_str_cmp truth binop_int b2z negb];
   change (0 =? 0) with true; change (1 =? 0) with false; cbn [negb b2z].
 
@@ -114,7 +114,7 @@ Definition bl (p : Z) (r bv : val) (m o : list Z) : state :=
   {| vars := [("str"%string, VPtr RIn p); ("$ret"%string, r); (budget_var, bv)]; inb := m; outb := o |}.
 
 Ltac evba := cbn [prog_env eval_args callee_init finish_call copy_in copy_out try_update update lookup combine map app String.append
-                 String.eqb Ascii.eqb Bool.eqb fparams flocals fbody vars inb outb budget_var cell_token List.length Nat.eqb eval set_var cast
+                 String.eqb Ascii.eqb Bool.eqb fparams flocals fbody vars inb outb budget_var fail_var cell_token List.length Nat.eqb eval set_var cast
                  prog_sbdf_get_array_length prog_sbdf_ba_get_len prog_sbdf_ba_memcmp truth binop_int b2z negb];
   change (0 =? 0) with true; change (1 =? 0) with false; cbn [negb b2z].
 
